@@ -58,7 +58,7 @@ var vpProbeMu sync.Mutex
 
 func vpH_tv_stdlib() {
 	s := vpStrUpTo(3, "a/# ")
-	switch vpInt(0, 58) {
+	switch vpInt(0, 60) {
 	case 0:
 		vpAssert(strings.Count(s, "/") == vpCountByte(s, '/'), "strings.Count")
 	case 1:
@@ -239,6 +239,13 @@ func vpH_tv_stdlib() {
 		u, err := strconv.ParseUint("255", 10, 8)
 		_, err2 := strconv.ParseUint("256", 10, 8)
 		vpAssert(err == nil && u == 255 && err2 != nil, "strconv.ParseUint with a bit size")
+	case 59:
+		t := vpStrUpTo(2, "a-z")
+		r := []rune("a\u00e9\u65e5" + t)
+		vpAssert(len(r) == 3+len(t) && r[1] == 0xe9 && r[2] == 0x65e5 && string(r[1:3]) == "\u00e9\u65e5" && len(string(r)) == 6+len(t), "[]rune(string) and string([]rune) count characters, not bytes")
+	case 60:
+		r := []rune("\u00e9\u00e9\u00e9") // 3 characters: 12 bytes of storage, rounded up to a size class of 16 bytes
+		vpAssert(len(r) == 3 && cap(r) >= 3 && cap(r) <= 8 && len(r[:cap(r)]) == cap(r), "[]rune(string): slicing up to the capacity is legal")
 	case 58:
 		vpAssert(strconv.FormatInt(-42, 10) == "-42" && strconv.FormatInt(255, 16) == "ff" && strconv.Itoa(1000) == "1000", "strconv.FormatInt")
 	case 33:
